@@ -138,6 +138,19 @@ def setp(root, trail, fn):
     fn(cur, trail[-1])
 
 
+def _not_a_container(node, strict, trail, shape=None):
+    """What replaces a container at `trail`: a scalar, None, or a container of the WRONG shape (a str or a mapping where a sequence is
+    expected - strict loaders name these as excluded types, with their own error class -, a list or a str where a mapping is
+    expected); only what the documented rule rejects AS A WHOLE, and the choice depends on the trail only."""
+    import zlib  # noqa: PLC0415
+    if shape is None:
+        shape = "mapping" if isinstance(node, spec.DictT) else "sequence"
+    candidates = (5, "text", [1], 5, None) if shape == "mapping" else (5, "text", {"k": 1}, 5, None) if strict else (5, None)
+    ok = [c for c in candidates if node is None or node.accept(c, strict).k == spec.R] or [5]
+    bad = ok[zlib.crc32(repr(trail).encode()) % len(ok)]
+    return lambda c, k: c.__setitem__(k, copy.deepcopy(bad))
+
+
 def positions(node, datum, trail, strict, out, depth=0):  # noqa: C901, PLR0912, PLR0915
     """Collects fault positions below (node, datum). `datum` is the valid outer datum (lists/dicts)."""
     if isinstance(node, spec.WrapT):
@@ -152,7 +165,7 @@ def positions(node, datum, trail, strict, out, depth=0):  # noqa: C901, PLR0912,
         return None
     if isinstance(node, spec.IterT):
         if trail:
-            out.append(Pos(trail, "wrong-container", lambda c, k: c.__setitem__(k, 5)))
+            out.append(Pos(trail, "wrong-container", _not_a_container(node, strict, trail)))
         for i, v in enumerate(datum):
             positions(node.elem, v, (*trail, i), strict, out, depth + 1)
         return None
@@ -166,7 +179,7 @@ def positions(node, datum, trail, strict, out, depth=0):  # noqa: C901, PLR0912,
         return None
     if isinstance(node, spec.DictT):
         if trail:
-            out.append(Pos(trail, "wrong-container", lambda c, k: c.__setitem__(k, 5)))
+            out.append(Pos(trail, "wrong-container", _not_a_container(node, strict, trail)))
         for k, v in datum.items():
             positions(node.val, v, (*trail, k), strict, out, depth + 1)
         if node.key.kind == "int" and strict:
@@ -187,7 +200,7 @@ def positions(node, datum, trail, strict, out, depth=0):  # noqa: C901, PLR0912,
 
         def walk(br, d, tr):
             if tr:
-                out.append(Pos(tr, "wrong-container", lambda c, k: c.__setitem__(k, 5 if True else None)))
+                out.append(Pos(tr, "wrong-container", _not_a_container(None, strict, tr, "sequence" if br.is_list else "mapping")))
             if br.is_list:
                 for k, c in br.children.items():
                     if isinstance(c, L.Branch):
@@ -307,6 +320,34 @@ def follow(datum, trail):
     return cur
 
 
+def _addressed(ctx, datum, trail, e, info):
+    """'Following the trail reaches exactly the offending sub-value': what the error itself names as its input (observe_at:
+    exc.input_value) is the sub-value its trail addresses (modulo the tuple(data) copy the tuple loaders report)."""
+    if not hasattr(e, "input_value"):
+        return
+    try:
+        reached = follow(datum, trail)
+    except Exception:  # noqa: BLE001
+        return   # reported as trail-does-not-address-input by the caller
+    ctx.count("input_value_checks")
+    if reached is e.input_value or _same_value(reached, e.input_value):
+        return
+    ctx.violation(f"input-value-is-not-the-addressed-sub-value:{type(e).__name__}",
+                  f"{type(e).__name__} with trail {list(trail)} names input_value={e.input_value!r:.120}, the trail leads to {reached!r:.120}",
+                  {**info, "error": repr(e)[:300]})
+
+
+def _same_value(a, b):
+    if isinstance(a, (list, tuple)) and isinstance(b, (list, tuple)):
+        return len(a) == len(b) and all(_same_value(x, y) for x, y in zip(a, b))
+    if a is b:
+        return True
+    try:
+        return type(a) is type(b) and bool(a == b)
+    except Exception:  # noqa: BLE001
+        return False
+
+
 class _Quiet:
     """Ctx stand-in used while minimising a failing multi-fault case."""
     def __init__(self):
@@ -365,17 +406,20 @@ def check_case(ctx, node, providers, valid, chosen, dt, sc, desc):
             what = "lost" if len(have) < len(want) else "duplicated-or-spurious" if len(have) > len(want) else "misplaced"
             ctx.violation(f"all-mode-trails-{what}:{'+'.join(kinds)}", f"{node.src}: planted {chosen}, reported trails {have} [{mode_name(dt, sc)}]", info)
             return
-        for t, _ in leaves_stop_union(e):
+        for t, leaf_exc in leaves_stop_union(e):
             try:
                 follow(datum, t)
             except Exception as ex:  # noqa: BLE001
                 ctx.violation("trail-does-not-address-input", f"trail {t} cannot be followed in the input datum: {ex!r}", info)
+            _addressed(ctx, datum, t, leaf_exc, info)
     elif dt == DebugTrail.FIRST:
         t = tuple(get_trail(e))
         if getattr(e, "exceptions", None) is not None and type(e).__name__ != "UnionLoadError":
             ctx.violation("first-mode-raises-group", f"{node.src}: FIRST raised a group {e!r}", info)
         elif tuple(map(repr, t)) not in {tuple(map(repr, w)) for w in want}:
             ctx.violation(f"first-mode-trail-not-planted:{'+'.join(sorted({p.kind for p in chosen}))}", f"{node.src}: FIRST trail {list(t)} is none of the planted {want}", info)
+        else:
+            _addressed(ctx, datum, t, e, info)
     else:
         t = tuple(get_trail(e))
         if t:
